@@ -20,7 +20,8 @@ for m in rows:
     c = m.get('confirmed') or ''
     mm = re.search(r'demo_clean_rc=(\d+) suite_with_change_rc=(\d+) \[test result: (\w+)\. (\d+) passed.*demo_with_change_rc=(\d+)', c)
     conf = "pass / pass (%s) / FAIL" % mm.group(4) if mm and mm.group(1) == '0' and mm.group(2) == '0' and mm.group(5) != '0' else c
-    det = ", ".join(m['detected_by']) or "none"
+    tho = m.get('thorough_only', [])
+    det = ", ".join((x + " (THOROUGH tier only)") if x in tho else x for x in m['detected_by']) or "none"
     missed = [x['check'] for x in m['checks'] if x['exit'] == 0]
     if missed:
         det += " (not by %s)" % ", ".join(missed)
@@ -36,7 +37,9 @@ for m in rows:
     out.append("| %s | %s | %s | %s | %s | %s | %s |" % (m['id'], m['breaks_property'], m['needs_to_manifest'], conf, det, first, note))
 total = len(rows)
 undetected = [m['id'] for m in rows if not m['detected_by']]
-out.append("\nSummary: %d of %d seeded changes are detected by at least one check at the quick tier%s. %d of them were missed (or mis-reported as harness errors) by the first version of the checks they were run against and led to the extensions listed in the notes and in DESIGN.md section 0.1.\n" % (total - len(undetected), total, (" (undetected: " + ", ".join(undetected) + ")") if undetected else "", n_first_miss))
+thorough_only = [m['id'] for m in rows if m['detected_by'] and all(x in m.get('thorough_only', []) for x in m['detected_by'])]
+out.append("\nSummary: %d of %d seeded changes are detected by at least one check at the quick tier%s. %d of them were missed (or mis-reported as harness errors) by the first version of the checks they were run against and led to the extensions listed in the notes and in DESIGN.md section 0.1.\n" % (total - len(undetected) - len(thorough_only), total, ((" (" + ", ".join(thorough_only) + " only at the thorough tier;") if thorough_only else " (") + (" undetected: " + ", ".join(undetected) + ")") if undetected or thorough_only else "", n_first_miss))
+print("thorough-only", thorough_only)
 out.append("## 2. Hand-written changes (`/verif/mutants/*.diff`, results in `/verif/mutants/RESULTS.txt`)\n")
 out.append("From the list in DESIGN.md section 6. `tools/run_mutants.sh` applies each to a scratch worktree, runs the repository's own suite (all pass) and the quick check.\n")
 out.append("| change | breaks | description | suite | check result |")
